@@ -43,7 +43,14 @@ def check_one(ck, r, m, d, failures, lay=0, label=''):
     spec = '({fa} ({fa} ({to} {A}) ({fm} ({to} {B}) {k1})) ({fm} ({to} (_ bv0 256)) {k2}))'.format(fa=fa, fm=fm, to=mu.to, A=A, B=Bt, k1=bvconst256(K192), k2=bvconst256(K384))
     # equivalent term shapes (the vanishing third term dropped, summands / factors in either order) are the same reduction
     ta, tb, k1 = '(%s %s)' % (mu.to, A), '(%s %s)' % (mu.to, Bt), bvconst256(K192)
-    shapes = [spec] + ['(%s %s %s)' % (fa, x_, y_) for pb in ('(%s %s %s)' % (fm, tb, k1), '(%s %s %s)' % (fm, k1, tb)) for x_, y_ in ((ta, pb), (pb, ta))]
+    k2, t0 = bvconst256(K384), '(%s (_ bv0 256))' % mu.to
+    import itertools
+    shapes = [spec]
+    for pb in ('(%s %s %s)' % (fm, tb, k1), '(%s %s %s)' % (fm, k1, tb)):
+        shapes += ['(%s %s %s)' % (fa, x_, y_) for x_, y_ in ((ta, pb), (pb, ta))]
+        for pc in ('(%s %s %s)' % (fm, t0, k2), '(%s %s %s)' % (fm, k2, t0)):
+            for x_, y_, z_ in itertools.permutations((ta, pb, pc)):
+                shapes += ['(%s (%s %s %s) %s)' % (fa, fa, x_, y_, z_), '(%s %s (%s %s %s))' % (fa, x_, fa, y_, z_)]
     ans = ck.prove_batch(low.all(), [(tag + '.value', 'result = To(a) + To(b)*2^192 [+ To(0)*2^384] over the windows of expand_message_xmd(msg, DST, 48)%s, i.e. OS2IP(uniform_bytes) mod n' % (
         ' (oversize-DST rule)' if d > 255 else ''), '(assert (not (or %s)))' % ' '.join(limbs_eq(o['S']['f'], sp) for sp in shapes))], timeout=90)
     if ans[0] != 'unsat':
